@@ -6,6 +6,7 @@ reftdf.decode() returns - plus presentation hints.  From it are derived
   reftdf.encode(spec)  the reference bytes
   extract(block)       the canonical form read back from a library object
 """
+import os
 import struct
 
 import numpy as np
@@ -292,6 +293,32 @@ def long_run_case(name):
     n = int(n)
     v = _vals(n, n, PER_FRAME[t])
     return {"spec": _rle_block(t, n, [_rle_item(t, 0, [None] + v[1:-1] + [None])]), "hints": {"dtype": dt, "order": order, "ints": "py", "scalar": "py", "nan": "pos"}}
+
+
+def same_shape_other_data(spec):
+    """a block of the same type, format and shape (item count, frame count, value counts) holding other samples and other gap positions;
+    None if the type carries no sample arrays"""
+    import copy
+
+    t = spec["t"]
+    s2 = copy.deepcopy(spec)
+    flip = lambda b: b ^ 0x00000400  # noqa - a mantissa bit: finite stays finite
+    if t in RLE_TYPES:
+        its = s2["signals" if t == "emg" else "plats" if t == "platData" else "tracks"]
+        if not its:
+            return None
+        for it in its:
+            fr = it["frames"]
+            fr = fr[1:] + fr[:1]
+            it["frames"] = [None if f is None else (flip(f) if isinstance(f, int) else [flip(x) for x in f]) for f in fr]
+        return s2
+    if t == "events":
+        if not any(e["values"] for e in s2["events"]):
+            return None
+        for e in s2["events"]:
+            e["values"] = [flip(v) for v in e["values"]]
+        return s2
+    return None
 
 
 def expand_case(case):
@@ -886,12 +913,57 @@ def extract(block):
     raise TypeError(t)
 
 
-def lib_write(block):
+def lib_write(block, sink=None):
+    """the bytes block._write puts into a binary stream. The stream is not always a pristine BytesIO at position 0: in rotation it is
+    a BytesIO that already holds other bytes (0xAA) before AND under the place the block goes (what is written must not depend on what
+    was there), a real file opened 'wb' / 'r+b', or a gzip stream (a stream whose fileno() is not its own byte sequence).
+    sink: force one of "fresh", "prefilled", "file", "gzip"."""
     import io
 
-    b = io.BytesIO()
-    block._write(b)
-    return b.getvalue()
+    if sink is None:
+        # a pure function of the block (its declared size), so that a saved case replays into the same kind of stream
+        try:
+            n = int(block.nBytes)
+        except Exception:  # noqa - e.g. an item that cannot be sized: any stream will do
+            n = 0
+        sink = ("fresh", "prefilled", "fresh", "prefilled", "fresh", "file", "prefilled", "gzip")[(n // 4 + n // 36 + len(type(block).__name__)) % 8]
+    if sink == "fresh":
+        b = io.BytesIO()
+        block._write(b)
+        return b.getvalue()
+    if sink == "prefilled":
+        head = 5
+        b = io.BytesIO(b"\xaa" * (head + 65536))
+        b.seek(head)
+        block._write(b)
+        end = b.tell()
+        return b.getvalue()[head:end]
+    from . import env
+
+    d = env.fresh_dir()
+    try:
+        path = os.path.join(d, "w.bin")
+        if sink == "file":
+            with open(path, "wb") as f:
+                f.write(b"\x55" * 7)
+            with open(path, "r+b") as f:
+                f.seek(7)
+                block._write(f)
+                end = f.tell()
+            with open(path, "rb") as f:
+                return f.read()[7:end]
+        import gzip
+
+        with gzip.open(path, "wb") as f:
+            block._write(f)
+        try:
+            with gzip.open(path, "rb") as f:
+                return f.read()
+        except Exception as e:  # noqa - the library wrote through / around the stream object it was given
+            raise env.LibraryFault("gzip-sink-corrupted", f"a {type(block).__name__} was written into a gzip stream; the stream cannot be read back afterwards "
+                                                          f"({type(e).__name__}: {e})")
+    finally:
+        env.rmdir(d)
 
 
 DECODE_HEADS = (b"", b"\xa5" * 7, b"\x5a" * 4096, b"")
@@ -905,8 +977,34 @@ def lib_decode(t, fmt, data, tail=b"", head=None):
     import zlib
 
     data = bytes(data)
+    crc = zlib.crc32(data)
     if head is None:
-        head = DECODE_HEADS[zlib.crc32(data) % len(DECODE_HEADS)]
+        head = DECODE_HEADS[crc % len(DECODE_HEADS)]
+    kind = (crc >> 8) % 8
+    if kind in (5, 7) and len(data) < 2_000_000:
+        # ... and the stream is not always a BytesIO: a real file, or a gzip stream (its fileno() is the compressed file's)
+        from . import env
+
+        d = env.fresh_dir()
+        try:
+            path = os.path.join(d, "r.bin")
+            if kind == 5:
+                with open(path, "wb") as f:
+                    f.write(head + data + bytes(tail))
+                with open(path, "rb") as f:
+                    f.seek(len(head))
+                    blk = lib_class(t)._build(f, fmt)
+                    return blk, f.tell() - len(head)
+            import gzip
+
+            with gzip.open(path, "wb") as f:
+                f.write(head + data + bytes(tail))
+            with gzip.open(path, "rb") as f:
+                f.seek(len(head))
+                blk = lib_class(t)._build(f, fmt)
+                return blk, f.tell() - len(head)
+        finally:
+            env.rmdir(d)
     st_ = io.BytesIO(head + data + bytes(tail))
     st_.seek(len(head))
     blk = lib_class(t)._build(st_, fmt)
